@@ -158,9 +158,11 @@ func c10Run(s *c10Scn, segName string, logEnc *json.Encoder, logMu *sync.Mutex) 
 		ap.AuthType = transport.InChannelAuthTelnet
 	}
 
-	opTimeout := 300 * time.Millisecond
-	if longMotd {
-		opTimeout = 2 * time.Second // 1.9 kB one byte at a time do not fit into the short budget
+	// the short budget is for the dialogues that end in silence (the timeout IS their outcome); every other outcome is decided
+	// by what the device says, and a generous budget keeps a busy machine from turning it into a timeout
+	opTimeout := 3 * time.Second
+	if s.Class == "timeout" {
+		opTimeout = 300 * time.Millisecond
 	}
 
 	capDebug := &logCapture{level: "debug"}
